@@ -485,3 +485,10 @@ def g_gate_map(rng, level=0, n_random=120):
         g = ci.CliffordGate(*range(N))
         g.forward_map = _rand_map(rng, N)
         yield {'self': g, 'obj': pa.PauliList(bits(rng, L, 2 * N), rng.integers(0, 4, L).astype(np.int64))}
+
+
+@gen(PA + 'PauliList.transform_by#state')
+def g_tr_state(rng, level=0, n_random=120):
+    for _ in range(n_random):
+        N = int(rng.integers(1, 4))
+        yield {'self': _rand_state(rng, N), 'clifford_map': _rand_map(rng, N), 'mask': None}
